@@ -66,6 +66,18 @@ def items? (files origins items : Sexp) : Option (List WalkItem) := do
         pure ⟨key, org⟩
     | _ => none
 
+def optOrigin? : Sexp → Option (Option Origin)
+  | .atom "-" => some none
+  | x => (origin? x).map some
+
+def optOriginSexp : Option Origin → Sexp
+  | none => .atom "-"
+  | some o => originSexp o
+
+partial def onode? : Sexp → Option ONode
+  | .list [o, .list cs] => do pure (.mk (← optOrigin? o) (← cs.mapM onode?))
+  | _ => none
+
 def level? : Sexp → Option Level
   | .list [m, tb] => do pure ⟨← frames? tb, ← map? m⟩
   | _ => none
@@ -138,6 +150,14 @@ def handlers : List (String × (List Sexp → String)) := [
         let res := decide (∀ l ∈ L, SiteResolved u l)
         pure (toString (Sexp.list [Sexp.ofBool true, Sexp.ofBool keys, Sexp.ofBool below, Sexp.ofBool line, Sexp.ofBool res,
                 Sexp.ofBool (stackHypsB api u L T), Sexp.ofBool (conclusionHolds u L st u0)]))),
+  ("c12.inherit", fun a => run do
+      let [no, po, .list res] := a | none
+      let r := inheritOrigin (← optOrigin? no) (← optOrigin? po) (← res.mapM onode?)
+      pure (toString (Sexp.list (r.map fun n => optOriginSexp n.origin)))),
+  ("c12.copyorigin", fun a => run do
+      let [fr, .list to] := a | none
+      let r := copyOrigin (← optOrigin? fr) (← to.mapM onode?)
+      pure (toString (Sexp.list ((allOriginsList r).map optOriginSexp)))),
   ("c12.known", fun _ => toString (Sexp.ofStrs Gen.Errors.knownStringConstructorErrors)),
   ("c12.tables", fun _ => toString (Sexp.list [Sexp.ofStrs Gen.Errors.maltPassThroughErrors, .atom Gen.Errors.fallbackError,
       Sexp.ofBool Gen.Errors.createExceptionChainAsModelled, Sexp.ofNat Gen.Errors.attachDropsFrames]))
